@@ -32,7 +32,7 @@ classes for the CEL types (`null` = `NoneType`, `type` = the class of the librar
 class inherits an operator from its native base. -/
 inductive Cls where
   | int | uint | dbl | bool | str | bytes | list | map | null | ts | dur | type
-  | pyfloat | pystr | pybytes | pylist | pytimedelta | pybool | pyint
+  | pyfloat | pystr | pybytes | pylist | pytimedelta | pybool | pyint | pydatetime
   deriving DecidableEq, Repr, Inhabited
 
 inductive Dbl where
@@ -52,7 +52,7 @@ inductive Val where
   | ts (us : Int) (off : Int) | dur (us : Int) | type (c : Cls)
   -- degraded natives (results of operators a wrapper class inherits from its native base)
   | nfloat (d : Dbl) | nstr (s : List Nat) | nbytes (b : List Nat) | nlist (xs : List Val)
-  | ntimedelta (us : Int) | nbool (b : Bool) | nint (i : Int)
+  | ntimedelta (us : Int) | nbool (b : Bool) | nint (i : Int) | ndatetime (us : Int) (off : Int)
   deriving Repr, Inhabited
 
 /-- `type(v)` in Python (identity of the class object). -/
@@ -61,7 +61,7 @@ def clsOf : Val → Cls
   | .str _ => .str | .bytes _ => .bytes | .list _ => .list | .map _ => .map | .null => .null
   | .ts _ _ => .ts | .dur _ => .dur | .type _ => .type
   | .nfloat _ => .pyfloat | .nstr _ => .pystr | .nbytes _ => .pybytes | .nlist _ => .pylist
-  | .ntimedelta _ => .pytimedelta | .nbool _ => .pybool | .nint _ => .pyint
+  | .ntimedelta _ => .pytimedelta | .nbool _ => .pybool | .nint _ => .pyint | .ndatetime _ _ => .pydatetime
 
 def Cls.isWrapper : Cls → Bool
   | .int | .uint | .dbl | .bool | .str | .bytes | .list | .map | .null | .ts | .dur | .type => true
@@ -141,13 +141,20 @@ def cmpTable : CmpTable
   | .map, .eq => .custom | .map, .ne => .custom
   | _, _ => .inherit
 
+/-- the native base class of every wrapper class, as the `class` statements spell it; the native comparison
+semantics of `nativeRel` (and the native result classes in C13) are those of these bases -/
+def nativeBases : List (String × String) :=
+  [("int", "int"), ("uint", "int"), ("dbl", "float"), ("bool", "int"), ("str", "str"), ("bytes", "bytes"),
+   ("list", "List[Value]"), ("map", "Dict[Value, Value]"), ("ts", "datetime.datetime"), ("dur", "datetime.timedelta"),
+   ("type", "type")]
+
 /-- `type_matched`: the two `issubclass` tests between the operand classes. Among the library's classes
 none is a subclass of another; a wrapper is a subclass of its native base. -/
 def Cls.subclassOf : Cls → Cls → Bool
   | a, b => a == b ||
     match a, b with
     | .int, .pyint | .uint, .pyint | .bool, .pyint | .pybool, .pyint => true
-    | .dbl, .pyfloat | .str, .pystr | .bytes, .pybytes | .list, .pylist | .dur, .pytimedelta => true
+    | .dbl, .pyfloat | .str, .pystr | .bytes, .pybytes | .list, .pylist | .dur, .pytimedelta | .ts, .pydatetime => true
     | _, _ => false
 
 /-- structure of the `type_matched` decorator as read from the source -/
@@ -185,8 +192,8 @@ def nativeRel (op : RelOp) : Val → Val → Dunder
   | .dur a, .dur b => .ok (some (op.holds (cmpInt a b)))
   | .null, .null => .ok (match op with | .eq => some true | .ne => some false | _ => none)
   | .type a, .type b => .ok (match op with | .eq => some (a == b) | .ne => some (a != b) | _ => none)
-  | .nfloat _, _ | .nstr _, _ | .nbytes _, _ | .nlist _, _ | .ntimedelta _, _ | .nbool _, _ | .nint _, _ => .error .other
-  | _, .nfloat _ | _, .nstr _ | _, .nbytes _ | _, .nlist _ | _, .ntimedelta _ | _, .nbool _ | _, .nint _ => .error .other
+  | .nfloat _, _ | .nstr _, _ | .nbytes _, _ | .nlist _, _ | .ntimedelta _, _ | .nbool _, _ | .nint _, _ | .ndatetime _ _, _ => .error .other
+  | _, .nfloat _ | _, .nstr _ | _, .nbytes _ | _, .nlist _ | _, .ntimedelta _ | _, .nbool _ | _, .nint _ | _, .ndatetime _ _ => .error .other
   | _, _ => .ok none
 
 /-- A scalar class's dunder as the table describes it. -/
@@ -443,12 +450,13 @@ def relOut (caught : List Exc) (bs : BooleanSpec) (r : PyM Bool) : RelOut :=
 /-- interpreter: `func(left, right)` under `except TypeError` -/
 def relI (S : CmpSpecs) (route : RelRoute) (bs : BooleanSpec) (caught : List Exc) (op : RelOp) (a b : Val) : RelOut :=
   relOut caught bs (pyRel S (route op) a b)
-/-- compiled: `bool_xx(left, right)` inside `result()`; anything `result()` does not catch is turned into
+/-- compiled: `bool_xx(left, right)` inside `result()`; TypeError is among the classes `result()` converts
+(`Cel.Bridge.Compare.result_catches_TypeError`), and anything `result()` does not catch is turned into
 CELEvalError("evaluation error") by `Transpiler.evaluate`'s blanket handler, so the caller sees an error too. -/
 def relC (S : CmpSpecs) (route : RelRoute) (bs : BooleanSpec) (op : RelOp) (a b : Val) : RelOut :=
-  match relOut resultCaught bs (pyRel S (route op) a b) with
-  | .escapes _ => .err
-  | r => r
+  match pyRel S (route op) a b with
+  | .ok r => .val r (if bs.rewraps then .bool else .pybool)
+  | .error _ => .err
 
 /-! ### well-formedness, plainness, same-typedness (decidable, used as theorem hypotheses) -/
 
@@ -470,7 +478,7 @@ mutual
 def Val.wf : Val → Bool
   | .list xs => wfList xs
   | .map kvs => (match kvs with | [] => true | (k, _) :: _ => keysOfCls k kvs) && keysNodup kvs && wfMap kvs
-  | .nfloat _ | .nstr _ | .nbytes _ | .nlist _ | .ntimedelta _ | .nbool _ | .nint _ => false
+  | .nfloat _ | .nstr _ | .nbytes _ | .nlist _ | .ntimedelta _ | .nbool _ | .nint _ | .ndatetime _ _ => false
   | _ => true
 def wfList : List Val → Bool
   | [] => true
